@@ -378,7 +378,23 @@ func c09IntegrityAlts(ver string) []string {
 	if ver == "1b1" {
 		final = "mi-draft"
 	}
-	return []string{right, other, final, right + "x", ""}
+	// structured look-alikes of the right identifier: its guard-header part alone, with an empty algorithm
+	// part, with the algorithm spelled twice, with another letter case, one character short
+	head := right
+	if i := strings.IndexByte(right, '/'); i >= 0 {
+		head = right[:i]
+	}
+	algo := "mi-sha256-03"
+	if ver == "1b1" {
+		algo = "mi-sha256-draft2"
+	}
+	alts := []string{right, other, final, right + "x", "", head + "/", head + "/" + algo + "/" + algo, strings.ToUpper(right[:1]) + right[1:], right[:len(right)-1], right + "/", "/" + algo}
+	if head != right {
+		alts = append(alts, head)
+	} else {
+		alts = append(alts, head+"/"+algo)
+	}
+	return alts
 }
 
 type c09Validity struct{ name, url string }
